@@ -327,6 +327,19 @@ fn run_case(ctx: &Ctx, index: u64, rep: &mut Report) {
             return;
         }
     }
+    // a replaced line must be executed in its new form whichever way it is entered next
+    if let Some(marker) = match edit_kind { "replace-breakpoint-line" => Some("bp\n"), "replace-other-line" => Some("replaced\n"), "add-new-line" => Some("new\n"), _ => None } {
+        let n = abasic_core::verif_hooks::parse_line_number(&edit_text).map(|x| x.0).unwrap_or(0);
+        for entry in ["GOTO", "GOSUB"] {
+            if !probe(&format!("{} {}", entry, n), &move |r: &Res, p: &str| {
+                if matches!(r, Res::Panic(_)) { Some("panicked".into()) }
+                else if !p.starts_with(marker) { Some(format!("the line was replaced by one that prints {:?} first", marker)) } else { None }
+            }, rep) {
+                return;
+            }
+        }
+        rep.count("replaced_line_entered");
+    }
     if let Some(l) = s1.map_lines.first().copied() {
         let target = *rng.pick(&s1.map_lines);
         for t in [l, target] {
@@ -348,10 +361,11 @@ fn run_case(ctx: &Ctx, index: u64, rep: &mut Report) {
 
 fn finalize(_tier: Tier, rep: &mut Report) -> Finalize {
     Finalize {
-        rule: "A case is a generated program driven to a suspension point (end, error, STOP, host break at a random turn, break while awaiting input), one edit (add, replace or delete — targeted at the line holding the breakpoint, the open FOR, the GOSUB return point, the DEF or the current DATA when there is one — or an untokenizable edit), the snapshot oracle, and the probes CONT / RETURN / NEXT v / PRINT FNx(1) / READ / GOTO n, each on its own replay of the history. \
+        rule: "A case is a generated program driven to a suspension point (end, error, STOP, host break at a random turn, break while awaiting input), one edit (add, replace or delete — targeted at the line holding the breakpoint, the open FOR, the GOSUB return point, the DEF or the current DATA when there is one — or an untokenizable edit), the snapshot oracle, and the probes CONT / RETURN / NEXT v / PRINT FNx(1) / READ / GOTO n / GOSUB n (a replaced or added line must run in its new form), each on its own replay of the history. \
                Non-trivial: at the edit the interpreter held at least one of (breakpoint, GOSUB frame, open loop, defined function, partially read DATA), the edit succeeded and >= 3 probes ran. Distinct by hash of program + edit + suspension turn.".into(),
         floors: vec![
             ("probes".into(), 30_000),
+            ("replaced_line_entered".into(), 3_000),
             ("rejected_edits_checked".into(), 500),
             ("had.breakpoint".into(), 2_000),
             ("had.gosub-frame".into(), 300),
